@@ -307,20 +307,38 @@ fn leaf_default_configs() {
 
 // ---------------------------------------------------------------------------------------------- runtime feature cache (C13)
 // detection itself (cpuid) is outside Kani's reach: any id in {1,2,3} may be detected
-fn stub_detect() -> u8 { kani::any_where(|d: &u8| *d >= 1 && *d <= 3) }
+static mut DETECTED: u8 = 0;
+fn stub_detect() -> u8 { let d = kani::any_where(|d: &u8| *d >= 1 && *d <= 3); unsafe { DETECTED = d; } d }
+// every store into the cache is recorded (the thread argument of C13 rests on "every store writes the detected id": with that, the
+// cell only ever holds 0 or d under ANY interleaving of calls, so every load sees 0 or d and every call returns d)
+static mut STORED: [u8; 4] = [0; 4];
+static mut N_STORED: usize = 0;
+fn stub_store(cell: &core::sync::atomic::AtomicU8, val: u8, order: core::sync::atomic::Ordering) {
+    unsafe { if N_STORED < 4 { STORED[N_STORED] = val; } N_STORED += 1; }
+    let _ = cell.swap(val, order);
+}
 #[cfg(httparse_simd)]
 #[kani::proof]
 #[kani::stub(crate::simd::runtime::detect_runtime_feature, stub_detect)]
+#[kani::stub(core::sync::atomic::Atomic::<u8>::store, stub_store)]
 fn leaf_runtime_feature_cache() {
-    // sequential contract: from a cache holding 0 or the detected id d, the call returns d (or the cached value) and stores only that
+    // sequential contract: from a cache holding 0 or a detected id, the call returns the cached value, or detects d, returns d and
+    // stores d -- and nothing else is ever stored, not even temporarily
     use core::sync::atomic::Ordering;
     let cached: u8 = kani::any_where(|c: &u8| *c <= 3);
-    crate::simd::kani_access::runtime_feature_cell().store(cached, Ordering::Relaxed);
+    let _ = crate::simd::kani_access::runtime_feature_cell().swap(cached, Ordering::Relaxed);
+    unsafe { N_STORED = 0; DETECTED = 0; }
     let r = crate::simd::kani_access::get_runtime_feature();
     let after = crate::simd::kani_access::runtime_feature_cell().load(Ordering::Relaxed);
     assert!(r >= 1 && r <= 3 || cached != 0);
     if cached != 0 { assert_eq!(r, cached); }
     assert_eq!(after, r);
+    unsafe {
+        assert!(N_STORED <= 4);
+        let mut i = 0;
+        while i < N_STORED { assert_eq!(STORED[i], r); assert!(cached != 0 || STORED[i] == DETECTED); i += 1; }
+        if cached == 0 { assert_eq!(r, DETECTED); }
+    }
 }
 
 // ---------------------------------------------------------------------------------------------- cast wrappers (C16, C17, C18)
